@@ -132,7 +132,8 @@ def spec_format(p):
     if p["ver"] is not None:
         o += "@" + spec_enc("ver", p["ver"])
     if p["q"]:
-        o += "?" + "&".join("%s=%s" % (k, spec_enc("qval", val)) for k, val in p["q"])
+        # "key=value pairs joined by & in ascending key order"
+        o += "?" + "&".join("%s=%s" % (k, spec_enc("qval", val)) for k, val in sorted(p["q"], key=lambda kv: kv[0].encode("utf-8")))
     if p["sub"] is not None:
         o += "#" + spec_enc("sub", p["sub"])
     return o
